@@ -8,6 +8,5 @@ type Celsius float64
 
 func main() {
 	c := Celsius(36.6)
-	fmt.Println(c == 36.6)
-	fmt.Printf("%v\n", c+0.4)
+	fmt.Printf("%T\n", c)
 }
